@@ -11,6 +11,7 @@
 package main
 
 import (
+	"bytes"
 	"fmt"
 	"os"
 	"runtime/debug"
@@ -51,7 +52,7 @@ func (c *ctx) notePanic(fam string, x any) {
 // validator set shipped == set named by the header == set committed to by the trusted next-validator hash, and valid
 // precommits for exactly this header (height, block id) from validators holding MORE than 2/3 of the set's power.
 // strictHigher: additionally height > tracked (required for advancing the tracked set).
-func (f *family) refOK(sp hdrSpec, cur tracked, strictHigher bool) (bool, string) {
+func (f *family) refOK(sp hdrSpec, hh []byte, cur tracked, strictHigher bool) (bool, string) {
 	if !cur.ok {
 		return false, "no-genesis"
 	}
@@ -67,7 +68,7 @@ func (f *family) refOK(sp hdrSpec, cur tracked, strictHigher bool) (bool, string
 	if sp.HdrVals != sp.Vals {
 		return false, "header-valhash-mismatch"
 	}
-	if sp.BadBlock || sp.CommitDH != 0 {
+	if sp.BadBlock || sp.CommitDH != 0 || (sp.CommitHash != nil && !bytes.Equal(sp.CommitHash, hh)) {
 		return false, "commit-for-other-block"
 	}
 	if sp.validPower()*3 <= sp.Vals.total()*2 {
@@ -111,7 +112,7 @@ func (c *ctx) checkAdvance(f *family, part string, before, after tracked, sps []
 	for i, sp := range sps {
 		reach = append(reach, append([]tracked{}, allowed...))
 		for _, cur := range reach[i] {
-			if ok, _ := f.refOK(sp, cur, true); ok {
+			if ok, _ := f.refOK(sp, hashes[i], cur, true); ok {
 				allowed = append(allowed, f.apply(sp, hashes[i]))
 			}
 		}
@@ -125,7 +126,7 @@ func (c *ctx) checkAdvance(f *family, part string, before, after tracked, sps []
 	why := "unjustified-state"
 	for i := len(sps) - 1; i >= 0; i-- {
 		if sameTracked(f.apply(sps[i], hashes[i]), after) {
-			_, why = f.refOK(sps[i], reach[i][len(reach[i])-1], true)
+			_, why = f.refOK(sps[i], hashes[i], reach[i][len(reach[i])-1], true)
 			break
 		}
 	}
@@ -224,7 +225,7 @@ func main() {
 		"heights": "tracked-1, tracked, tracked+1, tracked+5 (main grid: +1, +5)",
 		"main_grid": "trusted set x next in {A,B,C} (unchanged and changed) x block version (cosmos 10|11) x signature patterns: quick {a,c}^n u {c,n}^n u {c,f}^n u {c,d}^n ; thorough n<=3 {a,c,n,f,d}^n, n=4 quick u {a,c,n}^4 u {a,c,d}^4 u {a,c,f}^4 (a=absent c=commit n=nil vote f=outsider-signed d=duplicate of the first commit)",
 		"side_cases": "fully signed: untrusted set (B/C/A2) with every next; shipped set != set named by the header (both directions); commit height+1; commit for another block id; header+votes for a foreign chain id; heights <= tracked; two headers in one tx (T->X at +1, X->Y at +2 fully / exactly-2/3 signed); operator re-genesis at a lower height",
-		"deposits":   "ImportOuterTransfer at tracked-1/tracked/tracked+1, next unchanged/changed, signatures all / minimal >2/3 / exactly 2/3, proof in {existence, value mismatch, absence with empty key path}; untrusted set + {existence, absence}",
+		"deposits":   "ImportOuterTransfer at tracked-1/tracked/tracked+1, next unchanged/changed, signatures all / minimal >2/3 / exactly 2/3, proof in {existence, value mismatch, absence with empty key path}; untrusted set + {existence, absence}; at the tracked height: bodies (same / other time) whose commit claims the tracked block hash, with quorum / all-absent / empty / nil commit",
 	}
 	walls["B"] = lap()
 	r.Note("wall_s_parts", walls)
